@@ -143,7 +143,7 @@ func post_abg(r *projectivePoint, d0IsNeg bool, d_0_naf, e_0_naf, e_1_naf, d_1_n
 //verif:contract for=(*curve/scalar.Scalar).Mul group=abgsc
 func abg_scalarMul(s, a, b *scalar.Scalar) *scalar.Scalar { verif.Havoc(s); return s }
 
-//verif:ob prop=C16,C03 name=abglsv_inner_loop mode=int tags=purego use=pt,naflk,nafabs4,abgsc cut=curve.edwardsMulAbglsvPorninVartimeGenericInner:1 inv=inv_abg post=post_abg cutfix=i native=1 maxinstr=4000000 split=i:0+128+255;top:0+128+255;own:0..3;neg:0..1 tsplit=i:0..255;top:0..255;own:0..3;neg:0..1
+//verif:ob prop=C16,C03 name=abglsv_inner_loop mode=int tags=purego use=pt,naflk,nafabs4,abgsc cut=curve.edwardsMulAbglsvPorninVartimeGenericInner:1 inv=inv_abg post=post_abg cutfix=i native=1 maxinstr=4000000 split=i:0+128+255;top:0+128+255;own:0..3;neg:0..1 tsplit=i:0..3+31..33+63..65+95..97+126..130+159..161+191..193+223..225+252..255;top:0..3+31..33+63..65+95..97+126..130+159..161+191..193+223..225+252..255;own:0..3;neg:0..1
 func vh_C16_innerLoop() {
 	if verif.Native() {
 		abglsvEndToEnd()
